@@ -681,6 +681,11 @@ func (s *sctx) genericItem() Item {
 	r := s.r
 	name := s.name("gf-")
 	it := Item{Kind: "generic", Name: name}
+	// qualified methods leave their mark in a variable (slip's princ cannot
+	// be redirected by rebinding *standard-output*)
+	tr := "*trace-" + name + "*"
+	it.Pre = []string{fmt.Sprintf("(defvar %s nil)", tr)}
+	it.Forms = append(it.Forms, it.Pre[0])
 	nreq := 1 + r.IntN(2)
 	params := []string{"p0", "p1"}[:nreq]
 	opt := r.IntN(5) == 0
@@ -731,7 +736,7 @@ func (s *sctx) genericItem() Item {
 				g.ints = append(g.ints, params[i])
 			}
 		}
-		body := fmt.Sprintf("(list 'm%d %s %s)", k, strings.Join(params, " "), g.Int(2))
+		body := fmt.Sprintf("(setq %s (cons 'm%d %s)) (list 'm%d %s %s)", tr, k, tr, k, strings.Join(params, " "), g.Int(2))
 		mdoc := ""
 		if r.IntN(5) == 0 {
 			mdoc = litString("method "+fw.Pick(r, words[:10])) + " "
@@ -752,9 +757,9 @@ func (s *sctx) genericItem() Item {
 		case 0:
 			it.Forms = append(it.Forms, fmt.Sprintf("(defmethod %s :around (%s) (list 'around (call-next-method)))", name, mll))
 		case 1:
-			it.Forms = append(it.Forms, fmt.Sprintf("(defmethod %s :before (%s) (princ \"before \"))", name, mll))
+			it.Forms = append(it.Forms, fmt.Sprintf("(defmethod %s :before (%s) (setq %s (cons 'before %s)))", name, mll, tr, tr))
 		default:
-			it.Forms = append(it.Forms, fmt.Sprintf("(defmethod %s :after (%s) (princ \"after \"))", name, mll))
+			it.Forms = append(it.Forms, fmt.Sprintf("(defmethod %s :after (%s) (setq %s (cons (list 'after %s) %s)))", name, mll, tr, params[0], tr))
 		}
 	}
 	// probes: every primary once, plus random tuples (some have no applicable method)
@@ -770,7 +775,7 @@ func (s *sctx) genericItem() Item {
 				as = append(as, specTypes[t].arg)
 			}
 		}
-		return fmt.Sprintf("(with-output-to-string (*standard-output*) (princ (%s %s)))", name, strings.Join(as, " "))
+		return fmt.Sprintf("(progn (setq %s nil) (list (%s %s) %s))", tr, name, strings.Join(as, " "), tr)
 	}
 	for _, p := range primaries {
 		it.Probes = append(it.Probes, call(p, false))
